@@ -403,9 +403,9 @@ def st_cols(draw, field_idxs, fields, enums, allow_hidden):
 
 
 @st.composite
-def st_reformat_case(draw):
+def st_reformat_case(draw, allow_dict=True):
     """a table, printed, then re-formatted (fmt setter and / or remove_columns), then printed again"""
-    a = draw(st_table_case(max_records=12))
+    a = draw(st_table_case(max_records=12, allow_dict=allow_dict))
     nf = len(a["fields"])
     steps = []
     cur_cols = [dict(c) for c in visible_cols(a)]
